@@ -180,6 +180,11 @@ def _single(kind):
       # the filter is computed at run time (a second model input)
       w = g.input('w', (2, 2))
       y = g.fc(x, 'y', bias=False, w_idx=w)
+    elif kind == 'FC_TINY_WEIGHTS':
+      # tiny weights, ordinary bias: bias / (input scale * weight scale) is
+      # far beyond the int32 range (int64 bias under 16-bit activations)
+      y = g.fc(x, 'y', w=np.array([[2e-6, -1e-6], [1.5e-6, 0.5e-6]],
+                                  np.float32))
     elif kind == 'FC_DEAD_CHANNEL':
       # a pruned unit: all-zero weight row, non-zero bias
       y = g.fc(x, 'y', w=np.array([[0.5, -1.0], [0.0, 0.0]], np.float32))
@@ -209,7 +214,7 @@ SINGLE_KINDS = ['FC', 'FC_NOBIAS', 'CONV_2D', 'DEPTHWISE_CONV_2D',
                 'DEPTHWISE_CONV_2D_NOBIAS', 'TRANSPOSE_CONV_NOBIAS',
                 'TRANSPOSE_CONV_EMPTY_BIAS', 'CONCAT_CONST', 'CONCAT_CONST2',
                 'FC_DEAD_CHANNEL', 'FC_RUNTIME_WEIGHTS', 'FC_2INPUTS',
-                'CONV_2D_2INPUTS', 'DEPTHWISE_CONV_2D_2INPUTS']
+                'CONV_2D_2INPUTS', 'DEPTHWISE_CONV_2D_2INPUTS', 'FC_TINY_WEIGHTS']
 
 
 def _topologies():
@@ -291,6 +296,16 @@ def _topologies():
       c = g.const(f'c{k}', np.array([[0.25 * k, -0.5 * k]], np.float32))
       g.output(g.concat([t, c], f'y{k}'))
   add('tensor_feeds_three_concats', three_concats)
+
+  def stateful(mb, g):
+    # an operator that keeps state in a variable tensor between invocations
+    # (RNN / LSTM / SVDF style): calibration must reset it per sample
+    x = g.input('x', (1, 2))
+    h = g.fc(x, 'h')
+    st = g.act('state', (1, 2))
+    g.sg.tensors[st].isVariable = True
+    g.output(g.binary('ADD', h, st, 'y'))
+  add('stateful_variable_tensor', stateful)
 
   def weight_is_output(mb, g):
     # the weights of a quantized op are also returned from the model
@@ -481,6 +496,20 @@ def _topologies():
     mb.signature('second', g2, ['x'], ['y'])
     return mb.build()
   out['two_subgraphs_same_constant_name'] = same_constant_name()
+
+  def legacy_opcodes():
+    # pre-TF-2.4 encoding of operator codes: the real op in
+    # deprecated_builtin_code, builtin_code left 0
+    mb = skeletons.ModelBuilder()
+    g = mb.subgraph()
+    x = g.input('x', (1, 2))
+    g.output(g.unary('TANH', g.fc(x, 't'), 'y'))
+    m = flatbuffer_utils.read_model_from_bytearray(bytearray(mb.build()))
+    for oc in m.operatorCodes:
+      oc.deprecatedBuiltinCode = oc.builtinCode
+      oc.builtinCode = 0
+    return bytes(flatbuffer_utils.convert_object_to_bytearray(m))
+  out['legacy_operator_codes'] = legacy_opcodes()
 
   def same_constant_name_nonadjacent():
     mb = skeletons.ModelBuilder()
@@ -782,7 +811,9 @@ def run_pipeline(e, model_bytes, recipe, backend='UF', qsvs=None,
       bytearray(model_bytes))
   # through the public facade: Quantizer builds the RecipeManager, loads /
   # updates the recipe and runs ParamsGenerator and ModelModifier
-  out.recipe = recipe
+  # the rule list in force: with a past, the earlier rules followed by the
+  # final ones (a fresh manager loading that list is the reference, C11)
+  out.recipe = [r for past in (history or []) for r in past] + list(recipe)
   try:
     q = quantizer_lib.Quantizer(bytes(model_bytes), None)
     rm = q._recipe_manager
